@@ -231,10 +231,16 @@ fn check_render(cfg: &Config, keys: &[KeySpec], models: &[Model], text: &str) ->
                 let Some((_, _, sv, svt)) = get("_sum") else { return Err(Fail::new("wrong-family-shape", format!("{:?} has no _sum", fname))) };
                 if exact {
                     ensure!(*sv == sum, "histogram-sum-wrong", "{:?}_sum renders {} but the exact sum of the {} samples is {}", fname, svt, n, sum);
-                } else if sum.is_nan() {
-                    ensure!(sv.is_nan(), "histogram-sum-wrong", "{:?}_sum renders {} but the samples sum to NaN", fname, svt);
-                } else if sum.is_infinite() {
-                    ensure!(*sv == sum || sv.is_nan() && false, "histogram-sum-wrong", "{:?}_sum renders {} expected {}", fname, svt, sum);
+                } else if m.samples.iter().any(|v| v.is_nan()) {
+                    ensure!(sv.is_nan(), "histogram-sum-wrong", "{:?}_sum renders {} but a NaN sample was recorded", fname, svt);
+                } else if m.samples.iter().any(|v| v.is_infinite()) {
+                    // an infinite sample dominates whatever the order of additions (NaN if both signs occur)
+                    let (pos, neg) = (m.samples.iter().any(|v| *v == f64::INFINITY), m.samples.iter().any(|v| *v == f64::NEG_INFINITY));
+                    let ok = if pos && neg { sv.is_nan() } else if pos { *sv == f64::INFINITY || sv.is_nan() } else { *sv == f64::NEG_INFINITY || sv.is_nan() };
+                    ensure!(ok, "histogram-sum-wrong", "{:?}_sum renders {} although an infinite sample was recorded", fname, svt);
+                } else if !m.samples.iter().map(|v| v.abs()).sum::<f64>().is_finite() {
+                    // finite samples whose magnitudes overflow f64 when added: the result depends on the
+                    // order of additions (per-batch partial sums), so no single value is required
                 } else {
                     let scale: f64 = m.samples.iter().map(|v| v.abs()).sum::<f64>().max(f64::MIN_POSITIVE);
                     ensure!((sv - sum).abs() <= 1e-9 * scale || !sv.is_finite() && scale.is_infinite(), "histogram-sum-wrong", "{:?}_sum renders {} expected about {}", fname, svt, sum);
